@@ -589,18 +589,18 @@ pub fn execute(case: &IterCase, ctx: &mut Ctx) -> Verdict {
             match (rv.kind, is_ii) {
                 (RecvKind::Owned, true) => {
                     if case.kind == IterKind::IntoIterRef {
-                        Ok(drive((&parent).into_iter(), case, &mut run, pv, None, Some(&|i: &Cells<'_, u32>| i.num_cols())))
+                        Ok(drive((&parent).into_iter(), case, &mut run, pv, None, None))
                     } else {
-                        Ok(drive((&mut parent).into_iter(), case, &mut run, pv, None, Some(&|i: &CellsMut<'_, u32>| i.num_cols())))
+                        Ok(drive((&mut parent).into_iter(), case, &mut run, pv, None, None))
                     }
                 }
                 (RecvKind::ViewMut, true) | (RecvKind::ThinView, true) => {
                     let mut v = parent.view_mut(s1, e1);
                     if case.kind == IterKind::IntoIterRef {
-                        let r = Ok(drive((&v).into_iter(), case, &mut run, pv, None, Some(&|i: &Cells<'_, u32>| i.num_cols())));
+                        let r = Ok(drive((&v).into_iter(), case, &mut run, pv, None, None));
                         r
                     } else {
-                        let r = Ok(drive((&mut v).into_iter(), case, &mut run, pv, None, Some(&|i: &CellsMut<'_, u32>| i.num_cols())));
+                        let r = Ok(drive((&mut v).into_iter(), case, &mut run, pv, None, None));
                         r
                     }
                 }
@@ -608,10 +608,10 @@ pub fn execute(case: &IterCase, ctx: &mut Ctx) -> Verdict {
                     let mut v1 = parent.view_mut(s1, e1);
                     let mut v2 = v1.view_mut(s2, e2);
                     if case.kind == IterKind::IntoIterRef {
-                        let r = Ok(drive((&v2).into_iter(), case, &mut run, pv, None, Some(&|i: &Cells<'_, u32>| i.num_cols())));
+                        let r = Ok(drive((&v2).into_iter(), case, &mut run, pv, None, None));
                         r
                     } else {
-                        let r = Ok(drive((&mut v2).into_iter(), case, &mut run, pv, None, Some(&|i: &CellsMut<'_, u32>| i.num_cols())));
+                        let r = Ok(drive((&mut v2).into_iter(), case, &mut run, pv, None, None));
                         r
                     }
                 }
@@ -646,7 +646,7 @@ pub fn execute(case: &IterCase, ctx: &mut Ctx) -> Verdict {
         IRecv::View(_) => {
             let v = parent.view(s1, e1);
             if case.kind == IterKind::IntoIterRef {
-                Ok(drive((&v).into_iter(), case, &mut run, pv, None, Some(&|i: &Cells<'_, u32>| i.num_cols())))
+                Ok(drive((&v).into_iter(), case, &mut run, pv, None, None))
             } else {
                 on_shared(&v, case, &mut run, pv, col)
             }
@@ -655,7 +655,7 @@ pub fn execute(case: &IterCase, ctx: &mut Ctx) -> Verdict {
             let v1 = parent.view(s1, e1);
             let v2 = v1.view(s2, e2);
             if case.kind == IterKind::IntoIterRef {
-                Ok(drive((&v2).into_iter(), case, &mut run, pv, None, Some(&|i: &Cells<'_, u32>| i.num_cols())))
+                Ok(drive((&v2).into_iter(), case, &mut run, pv, None, None))
             } else {
                 on_shared(&v2, case, &mut run, pv, col)
             }
@@ -669,7 +669,7 @@ pub fn execute(case: &IterCase, ctx: &mut Ctx) -> Verdict {
             if case.kind.is_mut() {
                 let mut v = TooDeeViewMut::new(c, r, &mut buf[..]);
                 if case.kind == IterKind::IntoIterMut {
-                    let r = Ok(drive((&mut v).into_iter(), case, &mut run, pv, None, Some(&|i: &CellsMut<'_, u32>| i.num_cols())));
+                    let r = Ok(drive((&mut v).into_iter(), case, &mut run, pv, None, None));
                     r
                 } else {
                     on_mut(&mut v, case, &mut run, pv, col)
@@ -677,7 +677,7 @@ pub fn execute(case: &IterCase, ctx: &mut Ctx) -> Verdict {
             } else {
                 let v = TooDeeView::new(c, r, &buf[..]);
                 if case.kind == IterKind::IntoIterRef {
-                    Ok(drive((&v).into_iter(), case, &mut run, pv, None, Some(&|i: &Cells<'_, u32>| i.num_cols())))
+                    Ok(drive((&v).into_iter(), case, &mut run, pv, None, None))
                 } else {
                     on_shared(&v, case, &mut run, pv, col)
                 }
